@@ -569,6 +569,8 @@ fn eval(w: &W, es: &EState, refm: &mut [RefIns], f: &FSpec, cmd: Cmd, out: &mut 
 // sweep
 // ------------------------------------------------------------------------------------------------
 
+static UNREACHED: std::sync::Mutex<(u64, Option<String>)> = std::sync::Mutex::new((0, None));
+
 const SECOND: [Cmd; 3] = [Cmd::Cancel, Cmd::Close, Cmd::CancelAll];
 
 fn case_json(cfg: &[IC], f: &FSpec, seq: &[Cmd]) -> Value {
@@ -580,8 +582,16 @@ fn sweep_config(ctx: &Ctx, w: &W, filters: &[FSpec], cfg: &[IC], distinct: &mut 
     let es0 = match reach(w, cfg) {
         Ok(es) => es,
         Err(e) => {
-            eprintln!("MACHINERY: C19 could not reach configuration {cfg:?}: {e}");
-            std::process::exit(2);
+            // The configuration is reached by feeding events; if the tree under test no longer reaches
+            // it (e.g. a cancel request no longer marks an in-flight order) the configuration is
+            // skipped and counted. `run` turns skipped configurations into a machinery failure only
+            // if no violation was found in the configurations that were reached.
+            let mut g = UNREACHED.lock().unwrap();
+            g.0 += 1;
+            if g.1.is_none() {
+                g.1 = Some(format!("{cfg:?}: {e}"));
+            }
+            return 0;
         }
     };
     let ref0 = ref_of(cfg);
@@ -727,6 +737,11 @@ pub fn run(ctx: &Ctx) -> Outcome {
         evaluations.fetch_add(n, Ordering::Relaxed);
         distinct.merge_local(&local);
     });
+    let (unreached, first_unreached) = UNREACHED.lock().unwrap().clone();
+    if unreached > 0 && ctx.violations.len() == 0 {
+        eprintln!("MACHINERY: C19 could not reach {unreached} configuration(s) and found no violation elsewhere; first: {}", first_unreached.unwrap_or_default());
+        std::process::exit(2);
+    }
     let dn = distinct.len();
     if dn < 2 {
         eprintln!("MACHINERY: C19 sweep produced {dn} distinct outcomes");
@@ -737,6 +752,7 @@ pub fn run(ctx: &Ctx) -> Outcome {
         coverage: json!({
             "evaluations": evaluations.load(Ordering::Relaxed),
             "configurations": cfgs.len(),
+            "configurations_not_reached_by_the_setup_events": unreached,
             "filters": filters.len(),
             "command_sequences_per_configuration_and_filter": 8,
             "distinct_nontrivial": dn,
